@@ -368,6 +368,9 @@ func judgeFailOpen(r *Run, j *Judged, c *cls) {
 				if s.Fg && s.Kind == "get" && s != faulted && s.Fault == "" && s.Err == "" && !s.IsIndex {
 					usedStoreAfter = true
 				}
+				if s.Fg && s.Kind == "get" && !s.IsIndex && s.Err == "" && s.Seq < faulted.Seq {
+					usedStoreAfter = true // the entry had been read before the fault struck: the fault hid nothing from this exchange
+				}
 			}
 			if c.stored && !usedStoreAfter && faulted.Fault != "err-applied" {
 				j.fail("C10", "wrong-after-store-fault", e, faulted.Fault, "store %s of %q failed (%s) yet a stored response (sid %d) was returned", faulted.Kind, faulted.Key, faulted.Fault, sidOf(c.B))
@@ -543,6 +546,15 @@ func judgeValidation(r *Run, j *Judged, c *cls, by map[int]*OResp) {
 	}
 	if scc.has("must-revalidate") && c.staleForSure(r) {
 		why, strict = append(why, "stale+must-revalidate"), true
+	}
+	// the directive as the chain of 304s that validated B leaves it in the store: a 304 may have brought an
+	// unqualified no-cache that the copy served here does not show (because the freshened response was never
+	// written back); claimed only where the chain is unambiguous
+	if _, shown := scc["no-cache"]; !shown && c.B != nil && r.chainExact(c.B, e) {
+		eff, _ := r.effectiveStored(c.B, e.SeqInv)
+		if v, ok := parseCC(eff)["no-cache"]; ok && v == "" {
+			why, strict = append(why, "stored no-cache (from a 304)"), true
+		}
 	}
 	if c.reqCC.has("no-cache") {
 		why = append(why, "request no-cache")
@@ -1027,8 +1039,18 @@ func judgeSIE(r *Run, j *Judged, c *cls, by map[int]*OResp) {
 	g := c.guard(r)
 	servedB := c.stored && c.B == B
 	staleHi, staleLo := satAdd(aHi, -lLo), satAdd(aLo, -lHi)
+	// the cache takes its decision somewhere between learning of the failure and returning (it may read the
+	// store in between, and a store can be slow): "must be served" is claimed only if the window had not
+	// elapsed by the time the exchange returned either
+	tRet := max(e.TRetRaw, tFail)
+	_, aHiRet := currentAge(sh.Values("Age"), sh.Get("Date"), r.Sim.Epoch0, last.TStart, last.TResp, tRet, tRet)
+	if last != B && len(last.Header.Values("Age")) == 0 {
+		_, hi2 := currentAge(nil, sh.Get("Date"), r.Sim.Epoch0, last.TStart, last.TResp, tRet, tRet)
+		aHiRet = max(aHiRet, hi2)
+	}
+	staleHiRet := satAdd(aHiRet, -lLo)
 	switch {
-	case eligible && nLo >= 0 && !forbidden && lLo != inf && aHi != inf && satAdd(staleHi, g) < nLo:
+	case eligible && nLo >= 0 && !forbidden && lLo != inf && aHi != inf && aHiRet != inf && satAdd(staleHi, g) < nLo && satAdd(staleHiRet, g) < nLo:
 		j.count("C13", "sie-not-served")
 		r.probe("sie-window-inside")
 		if !servedB {
@@ -1069,6 +1091,50 @@ func judgeSIE(r *Run, j *Judged, c *cls, by map[int]*OResp) {
 func (r *Run) effectiveStored(B *OResp, before uint64) (hdr http.Header, last *OResp) {
 	hdr, last, _ = r.validationChain(B, before)
 	return
+}
+
+// chainExact: can the stored state of B at the time of exchange e be derived from the history without
+// ambiguity? Not after a client's own conditional request was answered 304, and not if validations of the
+// resource overlapped each other, B's own storing, or e (each works on its own copy of the entry; whose
+// write lands last is then a race).
+func (r *Run) chainExact(B *OResp, e *Exch) bool {
+	if r.clientConditionalSince(B, e.SeqInv) {
+		return false
+	}
+	if r.Crashes > 0 || firedPrefix(r.Faults, "disk.") {
+		return false
+	}
+	for _, s := range r.Store {
+		if s.Fault != "" && s.Kind != "get" && s.Seq > B.SeqResp && s.Seq < e.SeqInv {
+			return false // a write the store refused: what is stored is not what the history says was written
+		}
+	}
+	began := func(c *UpCall) uint64 {
+		if x := r.exchFor(c.Owner, c.OwnerOp); x != nil && x.SeqInv != 0 && x.SeqInv < c.SeqStart {
+			return x.SeqInv
+		}
+		return c.SeqStart
+	}
+	var since []*UpCall
+	for _, o := range r.Calls {
+		if o.Res == B.Res && o.SeqStart > B.SeqResp && o.SeqStart < e.SeqInv && safeMethods[o.Req.Method] {
+			since = append(since, o)
+		}
+	}
+	for i, a := range since {
+		if !a.Ended || r.lastSeqOfLineage(a) > e.SeqInv {
+			return false
+		}
+		if B.Call != nil && began(a) < r.lastSeqOfLineage(B.Call) {
+			return false
+		}
+		for _, b := range since[i+1:] {
+			if began(b) < r.lastSeqOfLineage(a) {
+				return false
+			}
+		}
+	}
+	return true
 }
 
 // clientConditionalSince: did a client send its own conditional request for B's resource (and get a
